@@ -70,6 +70,7 @@ structure ClassSpec where
   userSet : Bool          -- the class body defines `__setattr__`
   userDel : Bool          -- the class body defines `__delattr__`
   builtin : Bool          -- the builtin root `BaseException`/`Exception`: has its own (object-like) pair
+  stateArg : Option Bool  -- `getstate_setstate=` as written (`none` = left at None)
   fields : List FieldFacts
   bases : List Nat
   mro : List Nat
@@ -84,6 +85,7 @@ structure Node where
   rdel : DelK             -- `cls.__delattr__`
   rown : Bool             -- `getattr(cls, "__attrs_own_setattr__", False)`
   frozen : Bool           -- the builder's `is_frozen` (attrs classes)
+  ownState : Bool         -- attrs generated `__getstate__`/`__setstate__` for this very class
   deriving DecidableEq, Repr, FromJson, ToJson, Inhabited
 
 /-- attribute lookup along an MRO: the first class that has the entry -/
@@ -162,15 +164,16 @@ def rejects (s : ClassSpec) (mroN : List Node) (k : ClsOn) : Bool :=
 
 /-- the `__setattr__` entry of the finished class: the frozen one, the hook closure, `object.__setattr__`
     where an inherited attrs-made `__setattr__` is reset (`_patch_original_class` looks the marker up with
-    `getattr`, `_create_slots_class` in the direct bases' own `__dict__`), else the body's -/
+    `getattr`, `_create_slots_class` in the direct bases' own `__dict__`; a `__setattr__` written in the class
+    body is never replaced, with or without auto_detect), else the body's -/
 def ownSetOf (s : ClassSpec) (mroN basesN : List Node) (k : ClsOn) : Option SetK :=
   if isFrozenCls s mroN then
     (if runsAdd s mroN k then some .hooks else some .frozen)
   else if runsAdd s mroN k then some .hooks
   else if s.slots then
-    (if !hasOwnSet s && basesN.any (·.own == some true) then some .obj else bodySet s)
+    (if !s.userSet && basesN.any (·.own == some true) then some .obj else bodySet s)
   else if resolveOwn none mroN then
-    (if !hasOwnSet s then some .obj else bodySet s)
+    (if !s.userSet then some .obj else bodySet s)
   else bodySet s
 
 def ownDelOf (s : ClassSpec) (mroN : List Node) : Option DelK :=
@@ -184,10 +187,20 @@ def ownFlagOf (s : ClassSpec) (mroN : List Node) (k : ClsOn) : Option Bool :=
   else if resolveOwn none mroN then some false
   else none
 
+/-- `_determine_whether_to_implement(cls, getstate_setstate, auto_detect, ("__getstate__", "__setstate__"),
+    default=slots or _inherits_generated_getstate(cls))` for class bodies without state methods of their own:
+    the class gets its own generated pair when asked to, and by default when it is slotted or would otherwise
+    inherit the pair generated for a base (which only knows the base's fields and hash cache) -/
+def ownStateOf (s : ClassSpec) (mroN : List Node) : Bool :=
+  match s.stateArg with
+  | some b => b
+  | none => s.slots || mroN.any (·.ownState)
+
 def nodeOf (s : ClassSpec) (mroN basesN : List Node) (k : ClsOn) : Node :=
   { set := ownSetOf s mroN basesN k, del := ownDelOf s mroN, own := ownFlagOf s mroN k,
     rset := resolveSet (ownSetOf s mroN basesN k) mroN, rdel := resolveDel (ownDelOf s mroN) mroN,
-    rown := resolveOwn (ownFlagOf s mroN k) mroN, frozen := isFrozenCls s mroN }
+    rown := resolveOwn (ownFlagOf s mroN k) mroN, frozen := isFrozenCls s mroN,
+    ownState := ownStateOf s mroN }
 
 /-- Decorating one class: `define.wrap` (next-gen only), `attrs.wrap`, the builder, `build_class`.
     `mroN` = the nodes of `cls.__mro__[1:]`, `basesN` = the nodes of `cls.__bases__`.
@@ -201,7 +214,7 @@ def decorate (s : ClassSpec) (mroN basesN : List Node) : Except Exc Node :=
 def plainNode (s : ClassSpec) (mroN : List Node) : Node :=
   { set := bodySet s, del := bodyDel s, own := none,
     rset := resolveSet (bodySet s) mroN, rdel := resolveDel (bodyDel s) mroN, rown := resolveOwn none mroN,
-    frozen := false }
+    frozen := false, ownState := false }
 
 def pick (acc : List Node) (idx : List Nat) : List Node := idx.filterMap (acc[·]?)
 
@@ -282,6 +295,10 @@ structure Case where
   slotNames : List String
   /-- every name that can appear in `vars(inst)`, sorted (rendering order) -/
   names : List String
+  /-- some class along the MRO has a non-empty `__slots__` (a lone `__weakref__` counts) -/
+  anySlots : Bool
+  /-- the state protocol the leaf resolves, as the class logic predicts it (`wf` checks it against
+      `predictedGs`) -/
   gs : Gs
   /-- the fields the resolved `__hash__` reads (`none`: identity hash) -/
   hashNames : Option (List String)
@@ -305,6 +322,9 @@ structure DefErr where
 structure Obs where
   /-- a class definition was rejected -/
   defErr : Option DefErr
+  /-- what `type(inst).__setattr__` / `.__delattr__` resolve to (frozenness is detected through this identity) -/
+  rset : Option SetK
+  rdel : Option DelK
   /-- the constructor raised -/
   ctor : Option Exc
   start : Option Snap
@@ -427,6 +447,19 @@ def copyResult (c : Case) (lf : Leaf) (s : IState) : Option Exc × Option (List 
 
 def resFlags (lf : Leaf) : List String := if lf.rset == .frozen then ["fresh", "frozen"] else ["fresh"]
 
+/-- a copy made now can be hashed through the generated `__hash__`: the hashed fields are set, and a
+    hash-caching class finds its cache — carried over with `__dict__`, or re-created by the generated
+    `__setstate__` -/
+def hashReady (c : Case) (s : Snap) : Bool :=
+  match c.hashNames with
+  | none => false
+  | some ns =>
+    ns.all (fun n => (readSnap c s n).isSome) &&
+    (!c.init.run.cfg.cacheHash || c.gs == .attrs || (readSnap c s cacheName).isSome)
+
+def copyFlags (c : Case) (lf : Leaf) (s : IState) : List String :=
+  resFlags lf ++ (if hashReady c (render c s) then ["reshash"] else [])
+
 def step (c : Case) (lf : Leaf) (s : IState) (op : Op) : StepObs × IState :=
   let plain (r : Option Exc × IState) : StepObs × IState :=
     ({ exc := r.1, snap := render c r.2, values := none, flags := [] }, r.2)
@@ -451,7 +484,7 @@ def step (c : Case) (lf : Leaf) (s : IState) (op : Op) : StepObs × IState :=
       else plain (some .attributeError, s)
   | .copy | .deepcopy | .pickle _ =>
     let r := copyResult c lf s
-    ({ exc := r.1, snap := render c s, values := r.2, flags := if r.1.isNone then resFlags lf else [] }, s)
+    ({ exc := r.1, snap := render c s, values := r.2, flags := if r.1.isNone then copyFlags c lf s else [] }, s)
   | .evolve ch =>
     let cur := fieldVals c (render c s)
     let attrs := c.init.run.attrs
@@ -487,6 +520,19 @@ def finalState (c : Case) (lf : Leaf) : IState → List Op → IState
   | s, [] => s
   | s, op :: rest => finalState c lf (step c lf s op).2 rest
 
+/-- which state protocol the leaf resolves: the first class along its MRO (itself first) for which attrs
+    generated a `__getstate__/__setstate__` pair — fine when that is the class that provides the initializer
+    (the pair knows every field), C10's business otherwise; with no such class object's protocol applies. -/
+def stateDefiner (c : Case) (nodes : List Node) : Option Nat :=
+  -- the leaf (index 0 of `nodes`), then its MRO as CPython linearised it
+  let order := 0 :: ((c.classes.getLast?.map (·.mro)).getD []).map (· + 1)
+  order.find? (fun i => (nodes[i]?.map (·.ownState)).getD false)
+
+def predictedGs (c : Case) (nodes : List Node) : Gs :=
+  match stateDefiner c nodes with
+  | some i => if i == c.owner then .attrs else .other
+  | none => if c.anySlots then .optOut else .dflt
+
 /-- the leaf and the class that provides its initializer, after all definitions -/
 def leafOf (c : Case) (nodes : List Node) : Option Leaf :=
   match nodes.head?, nodes[c.owner]? with
@@ -495,19 +541,20 @@ def leafOf (c : Case) (nodes : List Node) : Option Leaf :=
 
 def model (c : Case) : Obs :=
   match buildFrom [] c.classes 0 with
-  | .error (i, e) => { defErr := some { idx := i, exc := e }, ctor := none, start := none, steps := [] }
+  | .error (i, e) => { defErr := some { idx := i, exc := e }, rset := none, rdel := none, ctor := none, start := none, steps := [] }
   | .ok nodes =>
     match leafOf c nodes with
-    | none => { defErr := none, ctor := some .other, start := none, steps := [] }
+    | none => { defErr := none, rset := none, rdel := none, ctor := some .other, start := none, steps := [] }
     | some lf =>
       let ic := effInit c lf.frozen
       let o := runInit ic
       match o.exc, bind (params ic.eff.attrs) ic.call with
-      | some e, _ => { defErr := none, ctor := some e, start := none, steps := [] }
-      | none, none => { defErr := none, ctor := some .typeError, start := none, steps := [] }
+      | some e, _ => { defErr := none, rset := some lf.rset, rdel := some lf.rdel, ctor := some e, start := none, steps := [] }
+      | none, none => { defErr := none, rset := some lf.rset, rdel := some lf.rdel, ctor := some .typeError, start := none, steps := [] }
       | none, some env =>
         let st := body ic.eff env
         let s0 : IState := { mem := st.mem, ex := { ExcSnap.empty with args := o.excArgs.getD [] } }
-        { defErr := none, ctor := none, start := some (render c s0), steps := runOps c lf s0 c.ops }
+        { defErr := none, rset := some lf.rset, rdel := some lf.rdel, ctor := none, start := some (render c s0),
+          steps := runOps c lf s0 c.ops }
 
 end Attrs.C05
